@@ -181,7 +181,7 @@ package contractcourt
 //@   ensures result2 == nil ==> result0 == c.state
 //@
 //@ func (c *ChannelArbitrator) handleRemoteForceCloseEvent
-//@   props C13
+//@   props C13 C12
 //@   bounds-safe
 //@   requires closeInfo != nil
 //@   site call InsertConfirmedCommitSet: assert ret(LogContractResolutions) == nil && arg(1) == addr(closeInfo.CommitSet)
@@ -190,7 +190,7 @@ package contractcourt
 //@        arg(1) == wrap(closeInfo.SpendingHeight, 32)
 //@
 //@ func (c *ChannelArbitrator) handleLocalForceCloseEvent
-//@   props C13
+//@   props C13 C12
 //@   bounds-safe
 //@   requires closeInfo != nil
 //@   site call InsertConfirmedCommitSet: assert ret(LogContractResolutions) == nil && arg(1) == addr(closeInfo.CommitSet)
@@ -199,7 +199,7 @@ package contractcourt
 //@        arg(1) == wrap(closeInfo.SpendingHeight, 32)
 //@
 //@ func (c *ChannelArbitrator) handleContractBreach
-//@   props C13
+//@   props C13 C12
 //@   bounds-safe
 //@   requires breachInfo != nil
 //@   site call InsertConfirmedCommitSet: assert ret(LogContractResolutions) == nil && arg(1) == addr(breachInfo.CommitSet)
@@ -482,3 +482,16 @@ package contractcourt
 //@
 //@ func (c *ChannelArbitrator) prepContractResolutions
 //@   site call SupplementState as state-present: assert arg(1) != nil
+//@
+//@ // ---- at start-up the arbitrator of an open channel knows the HTLCs of ALL valid commitments: ours, the peer's current one and - if we
+//@ // ---- signed one the peer has not revoked for yet - the peer's pending one, each set taken from its own commitment
+//@ func newActiveChannelArbitrator
+//@   props C12
+//@   loop * havoc
+//@   site call newHtlcSet nth 0: assert arg(0) == channel.LocalCommitment.Htlcs
+//@   site call newHtlcSet nth 1: assert arg(0) == channel.RemoteCommitment.Htlcs
+//@   site call newHtlcSet nth 2: assert retn(RemoteCommitChainTip, 0) != nil && arg(0) == retn(RemoteCommitChainTip, 0).Commitment.Htlcs
+//@   site mapupdate htlcSets nth 0: assert arg(key) == LocalHtlcSet
+//@   site mapupdate htlcSets nth 1: assert arg(key) == RemoteHtlcSet
+//@   site mapupdate htlcSets nth 2: assert arg(key) == RemotePendingHtlcSet
+//@   site call NewChannelArbitrator: assert arg(1) == htlcSets
